@@ -1676,10 +1676,25 @@ dt_dtadd(struct dt_dt_s d, struct dt_dtdur_s dur)
 				/* don't have to */
 				;
 			} else if (UNLIKELY(i_d < i_orig)) {
-				d.t.hms.s -= nltr;
+				/* stepped back over insertions, those we are
+				 * in now, not all NLTR of them */
+				d.t.hms.s += leaps_corr[i_orig] - leaps_corr[i_d];
 			} else if (UNLIKELY(i_d > i_orig)) {
 				d = orig;
 				d.t.hms.s += nltr;
+				if (UNLIKELY(d.t.hms.s > SECS_PER_MIN)) {
+					/* beyond the inserted second, that's
+					 * in the next minute then */
+					const int x = d.t.hms.s - SECS_PER_MIN;
+
+					d.t.hms.s = SECS_PER_MIN - 1;
+					d.t = dt_tadd_s(d.t, x, 0);
+					if (d.t.carry) {
+						dur.d.durtyp = DT_DURD;
+						dur.d.dv = d.t.carry;
+						d.d = dt_dadd(d.d, dur.d);
+					}
+				}
 			}
 		}
 	}
